@@ -238,6 +238,211 @@ func c18model(c *Ctx, rule string) {
 	}
 	m.filterModel(rule, filter, check, kt[0], ka[0])
 	m.passModel(rule, check, kt[0])
+	m.boundsModel(rule, check)
+}
+
+// boundsModel: the pass protocol with the state-dependent keep function KeepBounds, in file order
+// (nodes, ways, relations by increasing id — the order of real files; in other orders what this keep
+// function selects depends on the order itself, which is what R4 reports).  Nodes carry symbolic
+// coordinates; expected is the least set with: nodes inside the box; ways with a kept node;
+// relations with a kept member; everything a kept way or relation references.
+func (m *c18m) boundsModel(rule string, check *types.Func) {
+	c := m.c
+	kb := c.P.Func("encoding/osm", "KeepBounds")
+	pn, pw, pr := c.P.Method("encoding/osm", "Data", "processNode"), c.P.Method("encoding/osm", "Data", "processWay"), c.P.Method("encoding/osm", "Data", "processRelation")
+	cm := newClipModel(c)
+	if c.P.Decl(kb) == nil || c.P.Decl(pn) == nil || c.P.Decl(pw) == nil || c.P.Decl(pr) == nil || cm.bt == nil || cm.ptT == nil {
+		return // the by-tag pass model reports missing anchors
+	}
+	pos := c.P.Decl(pw).Pos()
+	cons := "encoding/osm#passes(by bounds)"
+	m.it.valuation = map[string]float64{"__ranks": 1}
+	defer func() { m.it.valuation = nil }()
+	// the box (100,100)-(200,200); nodes 1-3 inside, 4-6 outside
+	box := oPtr{m.it.bounds(cm.bt, cm.ptT, 100, 100, 200, 200)}
+	c.Evals(1)
+	kres, why := m.it.Call(kb, nil, []oval{box}, 0)
+	if why != "" || len(kres) != 1 {
+		c.Unk(rule, cons, pos, "KeepBounds is not interpretable: %s", why)
+		return
+	}
+	keep := kres[0]
+	docs := []osmDoc{
+		{ // ways sticking out of the box, relations two levels deep
+			name: "ways reaching out of the box",
+			ways: map[int64][]int64{10: {1, 2, 3}, 11: {3, 4}, 12: {5, 6}, 13: {4, 7}},
+			relations: map[int64][]osmRef{
+				20: {{"r", 21}}, // a parent listed before its child
+				21: {{"w", 10}},
+				22: {{"w", 12}},           // nothing of it is ever selected
+				23: {{"r", 20}, {"n", 6}}, // two levels above a selected way, with a node of its own
+			},
+			wayOrder: []int64{10, 11, 12, 13},
+			relOrder: []int64{20, 21, 22, 23},
+		},
+		{ // everything selected lies inside the box: no member is ever missing
+			name:      "everything selected inside the box",
+			ways:      map[int64][]int64{10: {1, 2, 3}, 12: {5, 6}},
+			relations: map[int64][]osmRef{20: {{"r", 21}}, 21: {{"w", 10}}, 22: {{"w", 12}}},
+			wayOrder:  []int64{10, 12},
+			relOrder:  []int64{20, 21, 22},
+		},
+	}
+	for _, d := range docs {
+		m.boundsDoc(rule, check, keep, pn, pw, pr, d)
+	}
+}
+
+func (m *c18m) boundsDoc(rule string, check *types.Func, keep oval, pn, pw, pr *types.Func, d osmDoc) {
+	c := m.c
+	cons := "encoding/osm#passes(by bounds, file order, " + d.name + ")"
+	pos := c.P.Decl(pw).Pos()
+	type nodeAt struct{ id, lon, lat int64 }
+	nodes := []nodeAt{{1, 110, 121}, {2, 132, 143}, {3, 154, 165}, {4, 310, 321}, {5, 332, 343}, {6, 354, 365}, {7, 376, 387}}
+	inBox := func(n nodeAt) bool { return n.lon >= 100 && n.lon <= 200 && n.lat >= 100 && n.lat <= 200 }
+	want := map[osmRef]bool{}
+	for changed := true; changed; {
+		changed = false
+		add := func(r osmRef) {
+			if !want[r] {
+				want[r] = true
+				changed = true
+			}
+		}
+		for _, n := range nodes {
+			if inBox(n) {
+				add(osmRef{"n", n.id})
+			}
+		}
+		for w, ns := range d.ways {
+			sel := want[osmRef{"w", w}]
+			for _, n := range ns {
+				if want[osmRef{"n", n}] {
+					sel = true
+				}
+			}
+			if sel {
+				add(osmRef{"w", w})
+				for _, n := range ns {
+					add(osmRef{"n", n})
+				}
+			}
+		}
+		for r, ms := range d.relations {
+			sel := want[osmRef{"r", r}]
+			for _, mb := range ms {
+				if want[mb] {
+					sel = true
+				}
+			}
+			if sel {
+				add(osmRef{"r", r})
+				for _, mb := range ms {
+					add(mb)
+				}
+			}
+		}
+	}
+	elem := func(f *types.Func) types.Type {
+		if pt, ok := f.Type().(*types.Signature).Params().At(0).Type().(*types.Pointer); ok {
+			return pt.Elem()
+		}
+		return nil
+	}
+	en, ew, er := elem(pn), elem(pw), elem(pr)
+	if en == nil || ew == nil || er == nil {
+		return
+	}
+	type obj struct {
+		f *types.Func
+		v oval
+	}
+	var objs []obj
+	for _, n := range nodes {
+		s := m.it.zero(en).(*oStruct)
+		s.fields["ID"], s.fields["Lon"], s.fields["Lat"] = oInt(n.id), oFloat{n.lon}, oFloat{n.lat}
+		objs = append(objs, obj{pn, oPtr{s}})
+	}
+	for _, w := range d.wayOrder {
+		s := m.it.zero(ew).(*oStruct)
+		ns, ok := s.fields["Nodes"].(oSlice)
+		if !ok {
+			return
+		}
+		et := ns.typ.Underlying().(*types.Slice).Elem()
+		var wn []oval
+		for _, n := range d.ways[w] {
+			e := m.it.zero(et).(*oStruct)
+			e.fields["ID"] = oInt(n)
+			wn = append(wn, e)
+		}
+		s.fields["ID"] = oInt(w)
+		s.fields["Nodes"] = m.it.sliceOfVals(ns.typ, wn)
+		objs = append(objs, obj{pw, oPtr{s}})
+	}
+	for _, r := range d.relOrder {
+		s := m.it.zero(er).(*oStruct)
+		ms, ok := s.fields["Members"].(oSlice)
+		if !ok {
+			return
+		}
+		et := ms.typ.Underlying().(*types.Slice).Elem()
+		var mm []oval
+		for _, ref := range d.relations[r] {
+			e := m.it.zero(et).(*oStruct)
+			e.fields["Ref"], e.fields["Type"] = oInt(ref.id), m.typeOf[ref.kind]
+			mm = append(mm, e)
+		}
+		s.fields["ID"] = oInt(r)
+		s.fields["Members"] = m.it.sliceOfVals(ms.typ, mm)
+		objs = append(objs, obj{pr, oPtr{s}})
+	}
+	out := m.data(osmDoc{})
+	bad, unk := "", ""
+	passes := 0
+	for again := true; again && bad == "" && unk == ""; {
+		again = false
+		passes++
+		if passes > 12 {
+			bad = "the passes do not come to an end within 12 rounds"
+			break
+		}
+		for _, o := range objs {
+			c.Evals(1)
+			res, why := m.it.Call(o.f, oPtr{out}, []oval{o.v, keep, oBool(true)}, 0)
+			if why != "" {
+				if strings.HasPrefix(why, "panic:") {
+					bad = o.f.Name() + " panics: " + why
+				} else {
+					unk = o.f.Name() + " is not interpretable with KeepBounds: " + why
+				}
+				break
+			}
+			for _, r := range res {
+				if b, ok := r.(oBool); ok && bool(b) {
+					again = true
+				}
+			}
+		}
+	}
+	if bad == "" && unk == "" {
+		got, msg := contents(oPtr{out})
+		switch {
+		case msg != "":
+			bad = msg
+		case !sameRefs(got, want):
+			bad = fmt.Sprintf("keeping by bounds (nodes 1–3 inside the box, a parent relation listed before its child) and handling the file in order, pass after pass until no call asks for another, gives %s after %d passes; the nodes in the box, the ways and relations they make selectable and everything those reference are %s: an object that only becomes selectable once something later in the pass is stored is never judged again", showRefs(got), passes, showRefs(want))
+		default:
+			if msg := m.checkOK(check, oPtr{out}, false); msg != "" {
+				if msg[0] == '?' {
+					unk = "Check is not interpretable: " + msg[1:]
+				} else {
+					bad = msg
+				}
+			}
+		}
+	}
+	report3(c, rule, cons, pos, bad, unk, "the least set closed under selection by the box and under references, in file order; Check accepts it")
 }
 
 func (m *c18m) tags(selected bool) oval {
